@@ -46,6 +46,9 @@ type Contract struct {
 	Lemmas     []*LemmaUse
 	Asserts    []*Clause // Label = anchor
 	Bounds     []string
+	Split      *Expr
+	SplitLo    int64
+	SplitHi    int64
 	Line       int
 	used       bool
 }
@@ -90,7 +93,7 @@ type SpecFile struct {
 var clauseKeywords = map[string]bool{
 	"func": true, "property": true, "returns": true, "requires": true, "ensures": true, "invariant": true,
 	"let": true, "modifies": true, "nopanic": true, "inline": true, "trusted": true, "pure": true, "lemma": true,
-	"assert": true, "define": true, "family": true, "deflemma": true, "axiom": true, "end": true, "bound": true, "note": true,
+	"assert": true, "split": true, "define": true, "family": true, "deflemma": true, "axiom": true, "end": true, "bound": true, "note": true,
 }
 
 func ParseSpecFile(path string) (*SpecFile, error) {
@@ -336,6 +339,21 @@ func ParseSpecFile(path string) (*SpecFile, error) {
 				cur.Pure = true
 			case "bound":
 				cur.Bounds = append(cur.Bounds, rc.text)
+			case "split":
+				// split <expr> in <lo>..<hi>
+				i := strings.LastIndex(rc.text, " in ")
+				if i < 0 {
+					return nil, perr(fmt.Errorf("split <expr> in lo..hi"))
+				}
+				e, err := ParseExpr(rc.text[:i])
+				if err != nil {
+					return nil, perr(err)
+				}
+				var lo, hi int64
+				if _, err := fmt.Sscanf(strings.TrimSpace(rc.text[i+4:]), "%d..%d", &lo, &hi); err != nil {
+					return nil, perr(err)
+				}
+				cur.Split, cur.SplitLo, cur.SplitHi = e, lo, hi
 			case "lemma":
 				// lemma @anchor name(args)
 				t := rc.text
